@@ -11,6 +11,7 @@ import (
 	"dawgsverif/internal/tr"
 
 	"github.com/specterops/dawgs/cypher/models/cypher"
+	"github.com/specterops/dawgs/cypher/models/walk"
 	"github.com/specterops/dawgs/graph"
 )
 
@@ -80,6 +81,18 @@ func dump(v reflect.Value, sb *strings.Builder, depth int) {
 func DumpOf(x any) string {
 	var sb strings.Builder
 	dump(reflect.ValueOf(x), &sb, 0)
+	return sb.String()
+}
+
+// walkTypes: the sequence of node types the structural walker enters.
+func walkTypes(x any) string {
+	var sb strings.Builder
+	err := walk.CypherStructural(x, walk.NewSimpleVisitor[cypher.SyntaxNode](func(node cypher.SyntaxNode, _ walk.VisitorHandler) {
+		fmt.Fprintf(&sb, "%T;", node)
+	}))
+	if err != nil {
+		sb.WriteString("error:" + err.Error())
+	}
 	return sb.String()
 }
 
@@ -215,7 +228,9 @@ func copyFacts(w *tr.Writer, hid int, text string, node any, copyOf func(any) an
 		}()
 		before := DumpOf(node)
 		c := copyOf(node)
-		ev["equal"] = DumpOf(c) == before && reflect.TypeOf(c) == reflect.TypeOf(node)
+		// equal: the same canonical dump, the same type, and the same structural walk (which tells a nil optional
+		// field or map from an empty one, as the walkers do)
+		ev["equal"] = DumpOf(c) == before && reflect.TypeOf(c) == reflect.TypeOf(node) && walkTypes(c) == walkTypes(node)
 		a, b := mutableParts(node), mutableParts(c)
 		shared := 0
 		for addr, where := range a {
